@@ -553,6 +553,9 @@ func Layout(toks []string, style int, next func() uint64) string {
 		}
 		return sb.String()
 	}
+	if style >= 3 {
+		return TightJoin(Lexemes(toks), style == 4, next)
+	}
 	first := true
 	for _, t := range toks {
 		if t == NL {
@@ -584,5 +587,65 @@ func Layout(toks []string, style int, next func() uint64) string {
 		sb.WriteString(t)
 	}
 	sb.WriteByte('\n')
+	return sb.String()
+}
+
+func wordByte(c byte) bool {
+	return c == '_' || c >= '0' && c <= '9' || c >= 'a' && c <= 'z' || c >= 'A' && c <= 'Z' || c >= 0x80
+}
+
+// NeedsSpace reports whether two adjacent lexemes must be separated to stay two tokens.
+func NeedsSpace(prev, next string) bool {
+	if prev == "" || next == "" {
+		return false
+	}
+	a, b := prev[len(prev)-1], next[0]
+	switch {
+	case wordByte(a) && wordByte(b):
+		return true
+	case wordByte(a) && b == '"': // identifier glued to a string is a string-type prefix
+		return true
+	case a == '"' && b == '"': // adjacent literals are one text
+		return true
+	case wordByte(a) && b == '`', a == '`' && b == '`':
+		return true
+	case a == '/' && b == '/', a == '=' && b == '=', a == '!' && b == '=', a == '<' && b == '=', a == '>' && b == '=', a == '&' && b == '&', a == '|' && b == '|':
+		return true
+	case wordByte(a) && b == '-' && len(next) > 1: // "x -1" stays what it was either way, keep it readable
+		return true
+	}
+	return false
+}
+
+// TightJoin writes the lexemes with no whitespace at all except where two tokens would
+// otherwise merge; with comments=true some tokens are directly followed by a comment.
+func TightJoin(toks []string, comments bool, next func() uint64) string {
+	var sb strings.Builder
+	prev := ""
+	for _, t := range toks {
+		if NeedsSpace(prev, t) {
+			sb.WriteByte(' ')
+		}
+		sb.WriteString(t)
+		prev = t
+		if comments && next != nil {
+			switch next() % 12 {
+			case 0:
+				sb.WriteString("#c\n")
+				prev = ""
+			case 1:
+				sb.WriteString("//c\r\n")
+				prev = ""
+			case 2:
+				sb.WriteString("\n")
+				prev = ""
+			}
+		}
+	}
+	if comments && next != nil && next()%2 == 0 {
+		sb.WriteString("#end") // a comment at end of input without a newline
+	} else {
+		sb.WriteByte('\n')
+	}
 	return sb.String()
 }
